@@ -52,6 +52,15 @@ static place_t place_new(const unsigned char *image) {
     memcpy(p.reg, image, REGSZ);
     return p;
 }
+/* the byte copy that is only observed (never operated on) goes to every alignment 0..7 in rotation: "a byte-for-byte copy at a
+ * different address" need not be aligned like the original (a table embedded behind a header of odd size in a larger segment) */
+static int place_rot_any;
+static place_t place_new_any(const unsigned char *image) {
+    place_t p; p.off = 16 + (place_rot_any++ & 7);
+    p.block = malloc(p.off + REGSZ); memset(p.block, 0x5C, p.off); p.reg = p.block + p.off;
+    memcpy(p.reg, image, REGSZ);
+    return p;
+}
 static void place_free(place_t *p, const char *after) {
     for (size_t i = 0; i < p->off; i++) if (p->block[i] != 0x5C) { vc_viol("guard:before-region", "after %s: byte %zu before the user region was overwritten", after, p->off - i); break; }
     free(p->block);
@@ -299,7 +308,7 @@ static int transition(const unsigned char *image, const model_t *m0, int opi, ch
     if (strcmp(d1, d2)) vc_viol("image:second-handle", "after %s: a second handle on the same memory observes different contents", after);
     h2->free(h2); h1->free(h1);
     /* byte copy at a third address */
-    place_t q = place_new(p.reg); qhasharr_t *h3 = qhasharr(q.reg, 0); observe(h3, m1, 0, "relocated copy", after, d3);
+    place_t q = place_new_any(p.reg); qhasharr_t *h3 = qhasharr(q.reg, 0); observe(h3, m1, 0, "relocated copy", after, d3);
     if (strcmp(d1, d3)) vc_viol("image:relocated-copy", "after %s: a byte copy of the region at another address observes different contents", after);
     h3->free(h3); place_free(&q, after);
     /* (e) no process address in the image: the same operation from the same image at yet another address and
